@@ -424,10 +424,40 @@ func (c crashErr) Error() string { return "process terminated: " + string(c) }
 
 var portSeq atomic.Int64
 
+// laneBase is the first port of the 256-port lane this run owns: the run holds a listener on that port from start to end, so
+// that another run of this check on the same machine (the other tier, a seeded tree) takes another lane.
+var laneBase int
+
+func acquireLane() (net.Listener, error) {
+	for k := 0; k < 45; k++ {
+		base := 20000 + ((os.Getpid()+k)%45)*256
+		if l, err := net.Listen("tcp", fmt.Sprintf("127.0.0.1:%d", base)); err == nil {
+			laneBase = base
+			return l, nil
+		}
+	}
+	return nil, fmt.Errorf("no free lane of loopback ports between 20000 and 31520")
+}
+
 func runChildOnce(h history) (childResult, error) {
 	hj, _ := json.Marshal(h)
 	// every child gets four ports of its own below the ephemeral range
-	base := 20000 + int(portSeq.Add(1)%2900)*4
+	// every child gets four ports of its own inside this run's lane (see acquireLane); a block with a port in use is skipped
+	var base int
+	for try := 0; try < 63; try++ {
+		base = laneBase + 4 + int(portSeq.Add(1)%63)*4
+		free := true
+		for p := base; p < base+4; p++ {
+			if l, err := net.Listen("tcp", fmt.Sprintf("127.0.0.1:%d", p)); err == nil {
+				l.Close()
+			} else {
+				free = false
+			}
+		}
+		if free {
+			break
+		}
+	}
 	cmd := exec.Command(os.Args[0], "-history", string(hj), "-portbase", fmt.Sprint(base))
 	cmd.Env = append(os.Environ(), "CASKETPATH="+os.Getenv("TMPDIR"))
 	out, err := cmd.Output()
@@ -478,6 +508,11 @@ func main() {
 	}
 	rep := kit.NewReport("C08", "model_checking",
 		"every history of <=2 (thorough 3) attempts over {validate, Instance.Restart, real SIGUSR1} x {16 failing configurations (one per failure kind and stage), 5 valid ones}, each followed by each of 5 valid final configurations, one child process per history; after every failed attempt: listening sockets (inodes and descriptor count), running site and event hooks unchanged; the final configuration must load within the backstop and answer a battery exactly as in a fresh process; distinct_nontrivial = distinct histories classes")
+	lane, err := acquireLane()
+	if err != nil {
+		rep.Broken("%v", err)
+	}
+	defer lane.Close()
 	failing := []string{"F1-syntax", "F2-unknown-directive", "F3-htpasswd-missing", "F3b-htpasswd-malformed", "F4-log-bad-roller", "F5-proxy-bad-second", "F6-tls-missing-cert", "F7-on-after-valid-on", "F8-missing-import", "F9-port-in-use", "F10-startup-callback-fails", "F11-late-setup-error-after-log-and-on", "F12-udp-port-in-use", "F13-htpasswd-user-missing", "F14-casketfile-unreadable"}
 	valid := []string{"V1-htpasswd", "V2-rolled-log", "V3-on", "V4-two-listeners", "V5-htpasswd-late"}
 	kinds := []string{"validate", "restart", "sigusr1"}
